@@ -65,7 +65,8 @@ class Report:
 
 
 def write_evidence(rep: Report, checker_cmd: str):
-    os.makedirs(os.path.join(VERIF, "evidence"), exist_ok=True)
+    evdir = os.environ.get("VERIF_EVIDENCE_DIR", os.path.join(VERIF, "evidence"))
+    os.makedirs(evdir, exist_ok=True)
     obl = rep.obligations
     n = len(obl)
     dis = sum(1 for o in obl if o["status"] == "discharged")
@@ -121,7 +122,7 @@ def write_evidence(rep: Report, checker_cmd: str):
         # nothing generated: not evidence of anything
         ev["coverage"]["obligations"] = 0
         ev["coverage"]["discharged"] = 0
-    with open(os.path.join(VERIF, "evidence", f"{rep.pid}.json"), "w") as f:
+    with open(os.path.join(evdir, f"{rep.pid}.json"), "w") as f:
         json.dump(ev, f, indent=1)
 
 
@@ -214,12 +215,18 @@ def select_units(kb, pid, tier, seed, rep):
             sel.append(n)
     if pid == "C09" and tier == "quick":
         # C09 is the union of the totality clauses of every unit; the quick tier runs every class-P/Z unit and a
-        # seed-rotated third of the class-M (1 MB heap) units, the thorough tier all of them.
-        m = sorted(n for n in sel if kb.units[n].klass == "M")
+        # seed-rotated third of the 1 MB-memory units, the thorough tier all of them.
+        m = sorted(n for n in sel if kb.units[n].klass in ("M", "S"))
         rnd = random.Random(seed)
         rnd.shuffle(m)
         drop = set(m[len(m) // 3:])
-        rep.notes.append(f"quick tier: {len(m) - len(drop)} of {len(m)} class-M units selected by seed; all run in the thorough tier and under their own properties' quick tier")
+        rep.notes.append(f"quick tier: {len(m) - len(drop)} of {len(m)} memory-class units selected by seed; all run in the thorough tier and under their own properties' quick tier")
+        sel = [n for n in sel if n not in drop]
+    if pid == "C04" and tier == "quick":
+        # the frame clause (only m, m+1 written) of the ~80 memory-operand productions is discharged under C01/C02/C05
+        # in their quick tier; C04's quick tier keeps its primary units, the thorough tier adds those frame clauses
+        drop = {n for n in sel if pid not in kb.units[n].props}
+        rep.notes.append(f"quick tier: {len(drop)} memory-operand production units (mem.frame clause) left to the thorough tier")
         sel = [n for n in sel if n not in drop]
     return sel
 
@@ -264,7 +271,10 @@ def evaluate_kani(kb, sel, res, rep, pid, log, root):
             tot_fail = []
         relevant = [c for c in set(failed) if c in mine] + sorted(set(tot_fail))
         if relevant:
-            cex = kb.counterexample(u, log)
+            # property-directed traces for the first refuted units only (each costs a solver call);
+            # later ones are still reported, with the verifier's output, as no-failing-input-found
+            rep.extra["traced_units"] = rep.extra.get("traced_units", 0) + 1
+            cex = kb.counterexample(u, log) if rep.extra["traced_units"] <= 6 else {"traces": [], "error": "trace budget of this run used up"}
             by_clause = {t["clause"]: t for t in cex.get("traces", [])}
             for c in sorted(relevant):
                 obl = f"{n}/{c if c in u.clauses else 'total'}"
